@@ -229,4 +229,21 @@ Fixpoint monitor (y : sys) (evs : list event) : nat * sys * list choice :=
       end
   end.
 
+(** The same replay, where every event also carries the length of the worker's
+    own detections list observed right after the thread's turn: it must be the
+    length of the model's [dets] at that point (the list is appended to before
+    the observers are notified). *)
+Fixpoint monitor_obs (y : sys) (evs : list (event * Z)) : nat * sys * list choice :=
+  match evs with
+  | [] => (O, y, [])
+  | (e, nd) :: more =>
+      match mon_event y e with
+      | Some (y', chs) =>
+          if zlen (dets y') =? nd
+          then let '(n, yf, l) := monitor_obs y' more in (S n, yf, chs ++ l)
+          else (O, y, [])
+      | None => (O, y, [])
+      end
+  end.
+
 End Monitor.
